@@ -67,6 +67,13 @@ def run_abs_pair(sp):
     try:
         shroudrun._prepare(sp, cwd)
         argv = [os.path.join(cwd, a) if a.startswith(("input", "work/", "out")) else a for a in sp["argv"]]
+        if sp.get("split_dirs"):
+            # every kind of output in its own (absolute) directory
+            extra = []
+            for opt, sub in (("--outdir-c-fortran", "out/cf"), ("--outdir-python", "out/py"), ("--outdir-lua", "out/lua"), ("--outdir-yaml", "out/yaml")):
+                os.makedirs(os.path.join(cwd, sub), exist_ok=True)
+                extra += [opt, os.path.join(cwd, sub)]
+            argv = extra + argv
         env = {"PATH": os.environ.get("PATH", "/usr/bin:/bin"), "PYTHONHASHSEED": "0", "PYTHONPATH": repo,
                "PYTHONDONTWRITEBYTECODE": "1"}
         outs = []
@@ -79,6 +86,9 @@ def run_abs_pair(sp):
             outs.append({"exit": p.returncode, "outputs": snap, "stderr": p.stderr[-1500:]})
             shutil.rmtree(os.path.join(cwd, "out"))
             os.makedirs(os.path.join(cwd, "out"))
+            if sp.get("split_dirs"):
+                for sub in ("out/cf", "out/py", "out/lua", "out/yaml"):
+                    os.makedirs(os.path.join(cwd, sub), exist_ok=True)
         return {"first": outs[0], "second": outs[1]}
     except subprocess.TimeoutExpired:
         return {"timeout": True}
@@ -178,6 +188,7 @@ def main(rec):
 
     # ---- (a2) same absolute paths, different current directory
     cw = allspecs if thorough else [s for i, s in enumerate(allspecs) if i % 3 == common.seed() % 3]
+    cw = cw + [dict(s_, split_dirs=True, name=s_["name"] + "+split-dirs") for i, s_ in enumerate(cw) if thorough or i % 2 == 0]
     cres = pool.run_cases("vf.checks.c07", cw, func="run_abs_pair", timeout=300)
     for sp, rr in zip(cw, cres):
         if "first" not in rr:
